@@ -129,8 +129,17 @@ def run(ctx, rep):
     f = L.f
     rep.analysed(f)
     fa = L.fa
-    rep.rule('R-C06-2', 'commit typestate: BLK set / DELETED released / info refreshed only with error=0, io_error=0 and (silent=0 or fixed=1)', 3)
+    rep.rule('R-C06-2', 'commit typestate: BLK set / DELETED released / info refreshed only with error=0, io_error=0 and (silent=0 or fixed=1)', 2)
     commits = [c for c in f.calls('block_state_set') if f.const_of(c.ops[1]) == st['BLK']] + list(f.calls('fs_deallocate'))
+    # the commit of a stripe may live in a static helper (a loop over the disks split out of the engine): the call of the helper is then the commit site
+    helper_commits = []
+    for c in f.calls():
+        g_ = P.functions.get(c.callee_full) if c.callee_full else None
+        if g_ is not None and not g_.decl and g_.internal and any(g_.const_of(x.ops[1]) == st['BLK'] for x in g_.calls('block_state_set')):
+            helper_commits.append(c)
+    if not [c for c in commits if c.callee == 'block_state_set'] and not helper_commits:
+        raise AnalysisBroken('state_sync_process: the commit to BLK was found neither inline nor in a static helper')
+    commits = commits + helper_commits
     refresh = [c for c in f.calls('info_make')]
     for c in commits + refresh:
         tuples = fa.at(c)
@@ -162,7 +171,7 @@ def run(ctx, rep):
     ends = list(f.calls('state_progress_end'))
     if len(wn) != 1 or not ends:
         raise AnalysisBroken('state_sync_process: io_write_next / state_progress_end not found')
-    blk_commits = [c for c in commits if c.callee == 'block_state_set']
+    blk_commits = [c for c in commits if c.callee == 'block_state_set' or c in helper_commits]
     r_ = f.reach(blk_commits, stop={wn[0].id})
     esc = [t for t in [L.block_first(L.header)] + ends if t.id in r_]
     rep.check(not esc, 'R-C06-3w', 'state_sync_process: commit is always followed by io_write_next', blk_commits[0].loc(), '' if not esc else 'a path from the commit reaches %s without scheduling the parity write' % esc[0].loc(), function='state_sync_process', construct='commit without write')
